@@ -112,7 +112,7 @@ let handle (p : string) : string =
     let (r, refm) = match proto with
       | "usbpro" -> run_proto proto u_recv u_init (fun s -> string_of_int (ust_i s.u_st)) ref_usb stream parts
       | "robe" -> run_proto proto r_recv r_init (fun s -> string_of_int (rst_i s.r_st)) ref_robe stream parts
-      | "opc" -> run_proto proto o_recv o_init (fun s -> string_of_int (List.length s.o_data)) ref_opc stream parts
+      | "opc" -> run_proto proto f_recv f_init (fun s -> string_of_int (int_of_n s.f_off)) ref_opc stream parts
       | "acn" -> run_proto proto a_recv a_init
                    (fun s -> if s.a_valid then Printf.sprintf "%d/%d"
                        (match s.a_st with A_PRE -> 0 | A_FLAGS -> 1 | A_LEN -> 2 | A_PDU -> 3) (int_of_n s.a_out)
